@@ -329,6 +329,17 @@ func oracleCancel(mr *muxRun, rs *reqState, cnt *[core.NumCounters]int) *Violati
 	if l.CtxWaited && l.CtxDoneErr == nil {
 		return fail("context-live-after-abort", "ctx.Done fired without an error")
 	}
+	// gRPC and gRPC-web: every stream call checks the stream's context first,
+	// so a Send or Recv that starts after the cancellation fails (over
+	// net/http a small Write to a dead connection would otherwise report
+	// success for ever)
+	if sp.Proto != "http" {
+		for _, c := range l.Calls {
+			if c.Start > rs.ctxCancelAt && c.Err == nil {
+				return fail("stream-call-after-cancel-succeeded", "a %s that started at step %d, after the context had been cancelled at step %d, returned nil", map[byte]string{'R': "Recv", 'S': "Send"}[c.Kind], c.Start, rs.ctxCancelAt)
+			}
+		}
+	}
 	// the call that was blocked at the abort is released with an error
 	for _, c := range l.Calls {
 		if !(c.Start <= rs.ioBrokenAt && c.End > rs.ioBrokenAt) {
